@@ -186,13 +186,14 @@ class Case:
         return n
 
     def lines(self):
-        L = ["case " + self.name, "cfg mode=%s suspend=1" % self.mode, "start"]
+        L = ["case " + self.name, "cfg mode=%s suspend=1" % self.mode]
         for rid, (kind, size, cbmax) in sorted(self.resps.items()):
             L.append("resp %d kind=%s size=%d cbmax=%d" % (rid, kind, size, cbmax))
         for i, c in enumerate(self.conns):
             body = {"cl": "cl:%d" % len(c.body()), "ch": "ch", "get": "none"}[c.shape]
             L.append("req %d 0 head=%d body=%s" % (i, len(c.head()), body))
             L.append("beh %d 0 %s" % (i, c.plan.beh()))
+        L.append("start")      # the application's scripts are fixed before the daemon starts
         for i, c in enumerate(self.conns):
             L.append("arrive %d %d" % (i, i + 1))
         pcs = [c.pieces() for c in self.conns]
@@ -274,7 +275,9 @@ def gen_cases(ctx, tier, boost=False):
     nrand = (3000 if tier == "thorough" else 500) * (3 if boost else 1)
     acts = ["i", "d0", "d1", "d2", "d3", "p", "t"]
     for _ in range(nrand):
-        mode = rng.choice(modes + (["poll-thr", "select-thr", "epoll-thr"] if tier == "thorough" else []))
+        mode = rng.choice(modes)
+        if tier == "thorough" and rng.random() < 0.2:
+            mode = rng.choice(["poll-thr", "select-thr", "epoll-thr"])
         nconn = rng.choice([1, 1, 2, 2, 3])
         conns, extra = [], []
         for i in range(nconn):
@@ -370,26 +373,32 @@ class ConnView:
                 "reply_head": head.decode("latin1"), "reply_body": body.hex(), "reply_complete": done, "completed": self.completed}
 
 
-def analyse(lines, nconn):
-    """independent oracle, pass 1: per-connection views + `quiet while suspended`"""
+def analyse(lines, nconn, threaded=False):
+    """independent oracle, pass 1: per-connection views + `quiet while suspended`.
+    Application-level view of one connection: A(ctive), S(uspended, no resume issued yet),
+    R(esume issued, the daemon has not started its next round yet).  A resume issued in state A
+    stays pending and cancels the next suspend (MHD documents resume as safe at any time)."""
     views = [ConnView() for _ in range(nconn)]
-    susp = [False] * nconn          # between an effective suspend and the next resume call
+    state = ["A"] * nconn
     pend = [False] * nconn          # a resume was issued while the connection was not suspended
     last_up = [None] * nconn
     for ln, l in enumerate(lines):
         w = l.split()
         if not w:
             continue
+        if w[0] == "round-begin":
+            state = ["A" if s == "R" else s for s in state]
+            continue
         d = dict(KV.findall(l))
         c = int(d["c"]) if "c" in d and d["c"].isdigit() else None
         if c is None or c >= nconn:
-            if w[0] in ("protocol-error", "bad-op", "fdset-failed", "start-failed"):
+            if w[0] in ("protocol-error", "bad-op", "fdset-failed", "start-failed", "panic"):
                 for v in views:
                     v.violations.append("harness: " + l)
             continue
         v = views[c]
         if w[0] in ("handler", "reader", "took", "queued", "io", "completed"):
-            if susp[c]:
+            if state[c] == "S" or (state[c] == "R" and not threaded):
                 v.violations.append("%s while suspended: `%s`" % (w[0] if w[0] != "io" else "socket I/O", l[:100]))
         if w[0] == "handler":
             ph = d["phase"]
@@ -415,23 +424,29 @@ def analyse(lines, nconn):
             v.events.append("reader j=%s pos=%s ret=%s" % (d["j"], d["pos"], ret))
         elif w[0] == "suspend":
             eff = d["eff"] == "1"
-            expect_eff = not pend[c]
-            if eff != expect_eff:
-                v.violations.append("suspend effectiveness %d but a resume %s pending: `%s`" % (eff, "was" if pend[c] else "was not", l))
+            if not threaded:
+                if state[c] != "A":
+                    v.violations.append("suspend issued by a callback of a connection that is not active: `%s`" % l)
+                elif eff != (not pend[c]):
+                    v.violations.append("suspend effectiveness %d but a resume %s pending: `%s`" % (eff, "was" if pend[c] else "was not", l))
             pend[c] = False
             if eff:
-                susp[c] = True
+                state[c] = "S"
                 v.nsusp += 1
             else:
                 v.ncancel += 1
             v.events.append("suspend eff=%d" % eff)
         elif w[0] == "resume":
-            if susp[c]:
-                susp[c] = False
-            elif w[-1] != "stop":
+            if w[-1] == "stop":
+                state[c] = "A"
+                continue
+            if state[c] == "S":
+                state[c] = "R"
+            elif state[c] == "A":
                 pend[c] = True
-            if w[-1] != "stop":
-                v.events.append("resume")
+            v.events.append("resume")
+        elif w[0] == "resumed":
+            state[c] = "A"
         elif w[0] == "wire":
             v.wire += unhx(w[2])
         elif w[0] == "completed":
@@ -439,7 +454,7 @@ def analyse(lines, nconn):
             v.events.append("completed code=%s" % d["code"])
         elif w[0] == "frozen-violation":
             v.violations.append("processing state changed while suspended: " + l[:160])
-        elif w[0] == "protocol-error":
+        elif w[0] in ("protocol-error", "double-suspend"):
             v.violations.append(l)
     return views
 
@@ -447,7 +462,8 @@ def analyse(lines, nconn):
 def judge(case, hlines, blines):
     """oracle verdicts for one case; hlines = log of the run, blines = log of the same script with the suspends erased"""
     n = len(case.conns)
-    hv, bv = analyse(hlines, n), analyse(blines, n)
+    thr = case.mode.endswith("-thr")
+    hv, bv = analyse(hlines, n, thr), analyse(blines, n, thr)
     errs = []
     for i, c in enumerate(case.conns):
         v, b = hv[i], bv[i]
